@@ -52,11 +52,20 @@ def structure(name):
         atoms.append(build.water((-8.0, 6.0, 3.0), 101))
         return build.pdb_text(atoms), None
     if name == "pep_wide":
-        # coordinates that fill their eight columns (sign in the first one)
+        # y fills its eight columns (sign in the first one); x and z need
+        # nine and are clipped by the writer - alike in every format
         atoms = build.build_peptide(["THR", "CYS", "ASN", "ARG"],
                                     origin=(-250.0, -120.0, 1050.0))
         atoms.append(build.water((-245.0, -111.0, 1055.0), 100))
-        return build.pdb_text(atoms), None
+        lines = []
+        for line in build.pdb_text(atoms).splitlines():
+            if line.startswith(("ATOM", "HETATM")):
+                x = float(line[30:38]) - 1000.0
+                z = float(line[46:54]) + 9000.0
+                line = (line[:30] + f"{x:8.3f}"[:8] + line[38:46]
+                        + f"{z:8.3f}"[:8] + line[54:])
+            lines.append(line)
+        return "\n".join(lines) + "\n", None
     if name == "two_blank":
         a = build.build_peptide(["ALA", "TYR", "GLY"], chain="")
         b = build.build_peptide(["THR", "ASN", "ALA"], chain="", start=11,
@@ -113,7 +122,13 @@ def run_lattice(case):
     seen = set()
     tagbase = f"{case['structure']}/{ff}/ffout={case['ffout'] or 'none'}"
     if base.ok:
-        base_num, base_atoms = numbers(base, [])
+        try:
+            base_num, base_atoms = numbers(base, [])
+        except ValueError as exc:
+            res["violations"].append({
+                "sig": "C09/lattice/records-not-readable/-",
+                "detail": {"case": tagbase, "error": str(exc)[:120]}})
+            return res
     for n in range(len(FORMAT_OPTS) + 1):
         for sub in itertools.combinations(FORMAT_OPTS, n):
             opts = base_opts + list(sub)
@@ -136,7 +151,17 @@ def run_lattice(case):
             if not r.ok:
                 res["events"]["both-abort"] = res["events"].get("both-abort", 0) + 1
                 continue
-            num, atoms = numbers(r, opts)
+            try:
+                num, atoms = numbers(r, opts)
+            except ValueError as exc:
+                sig = ("C09/lattice/records-not-readable/"
+                       + ("+".join(sorted(o.split("=")[0] for o in sub)) or "-"))
+                if sig not in seen:
+                    seen.add(sig)
+                    res["violations"].append({
+                        "sig": sig, "detail": {"case": tagbase, "opts": opts,
+                                               "error": str(exc)[:120]}})
+                continue
             res["nontrivial"].append(f"{tagbase}/{label}")
             if num != base_num:
                 # classify: count, order or value
